@@ -32,6 +32,16 @@ LabelRule(names, prefix) ==
              IN [names |-> [st.names EXCEPT ![u] = FreshName(prefix, i)], next |-> i]
   IN FoldLeft(step, [names |-> names, next |-> 0], [u \in DOMAIN names |-> u]).names
 
+\* Species of a leaf inferred from its name (get_species_mapping): names are split
+\* at underscores (lower-cased by the driver); the first proper prefix of the leaf
+\* name that is the name of a species wins.  species: sequence of <<index, tokens>>.
+InferSpecies(tokens, species) ==
+  LET hit(i) == {k \in DOMAIN species : species[k][2] = SubSeq(tokens, 1, i)}
+      I == {i \in 1..(Len(tokens) - 1) : hit(i) # {}}
+  IN IF I = {} THEN 0
+     ELSE LET i == CHOOSE x \in I : \A y \in I : x <= y
+          IN species[CHOOSE k \in hit(i) : TRUE][1]
+
 \* contract: what the README promises about the names written out
 IndexOf(prefix, s) == CHOOSE i \in 0..(3 * 12) : s = FreshName(prefix, i)
 IsFresh(prefix, s) == \E i \in 0..(3 * 12) : s = FreshName(prefix, i)
